@@ -435,6 +435,62 @@ def run_incidence_validation(chk, F):
                key='E4|%s::compute_incidence_between_cells|validated' % f.get('clsname'))
 
 
+def run_direction_agreement(chk, F):
+    """E11-direction-agreement: in the recursive propagation from the vertices a loop walks the positions of *one*
+    direction: the direction whose size bounds the loop (`sizes[d]`) is the direction whose stride advances the position
+    (`multipliers[d]`) - with the bound of another direction some cells of a non-cubic grid are never visited (they keep
+    the fill value) or positions outside the bitmap are read."""
+    n = 0
+    for f in F.funcs(unit='misc_seq'):
+        if f['inst'] not in (0, 2) or f.get('body') is None or 'Bitmap_cubical_complex' not in f['file']:
+            continue
+        for lp in ir.walk(f['body']):
+            if lp.get('k') != 'ForStmt':
+                continue
+            mb = re.search(r'sizes\[(\w+)\]', ir.show(lp.get('cond')).replace('this->', ''))
+            strides = set(re.findall(r'multipliers\[(\w+)\]', ir.show(lp.get('body')).replace('this->', '')))
+            var = None
+            init = lp.get('init')
+            if init is not None and init.get('k') == 'DeclStmt' and init.get('decls'):
+                var = init['decls'][0].get('n')
+            if not mb or not strides or var is None or not re.search(r'multipliers\[\w+\][^;]*\b%s\b' % var,
+                                                                     ir.show(lp.get('body')).replace('this->', '')):
+                continue
+            n += 1
+            ok = strides == {mb.group(1)}
+            chk.ob('E11-direction-agreement', '%s::%s: the loop bounded by sizes[%s] advances with multipliers[%s]' % (
+                f.get('clsname'), f['name'], mb.group(1), '/'.join(sorted(strides))), '%s:%s' % (rel(f['file']), lp.get('l')),
+                ok, '' if ok else 'the bound is the size of direction `%s`, the stride the one of direction `%s`' % (
+                    mb.group(1), '/'.join(sorted(strides))),
+                key='E11|%s::%s|direction-agreement|%s' % (f.get('clsname'), f['name'], '/'.join(sorted(strides))))
+    chk.expect_count('E11-direction-agreement', 'loops over one direction with a stride', n, 2)
+
+
+def run_order_recomputed(chk, F):
+    """E2-order-recomputed: `initialize_filtration()` of the cubical wrapper is the function the user calls after
+    changing values ("call it only if you are putting the filtration of the cells by your own"): every path through it
+    reaches the sort - no early exit on the state of the cache, whose size says nothing about the values."""
+    fs = [f for f in F.funcs('initialize_filtration', unit='misc_seq') if f['file'].endswith('Bitmap_cubical_complex.h')
+          and f.get('body') is not None]
+    if not fs:
+        raise AnalysisBroken('C13: initialize_filtration not found')
+    f = fs[0]
+
+    def cl(x):
+        if ir.is_call(x) and (ir.call_name(x) or '') in ('sort', 'parallel_sort', 'stable_sort'):
+            return ['SORT']
+        return []
+    ps = [p_ for p_ in paths.enumerate_paths(f, cl, loop_mode='01', keep_conds=True, cap=20000)
+          if paths.consistent_constexpr(p_)]
+    bad = [p_ for p_ in ps if p_.end != 'throw' and 'SORT' not in p_.tags()]
+    chk.ob('E2-order-recomputed', 'Bitmap_cubical_complex::initialize_filtration sorts on every path (%d paths)' % len(ps),
+           '%s:%d' % (rel(f['file']), f['line']), not bad,
+           '' if not bad else 'a path returns without sorting [decisions: %s]: the order of the former values is kept '
+           'after the values were changed' % '; '.join(('' if pol else '!') + ir.show(c)[:50] for c, pol, _ in
+                                                     bad[0].conds if not isinstance(c, tuple))[:160],
+           key='E2|Bitmap_cubical_complex::initialize_filtration|order-recomputed')
+
+
 def run(tier, replay=None):
     chk = Check('C13', tier,
                 'Static decision of the filtration-order clause of the cubical complex: the comparator handed to the '
@@ -485,6 +541,8 @@ def run(tier, replay=None):
     run_impose_overwrite(chk, F)
     run_zero_side(chk, F)
     run_incidence_validation(chk, F)
+    run_direction_agreement(chk, F)
+    run_order_recomputed(chk, F)
     _by = {}
     for _f in F.functions:
         if _f.get('inst') in (0, 2) and _f.get('body') is not None and _f['file'].startswith(facts.REPO):
